@@ -400,6 +400,7 @@ static void dump_final(rec_t *r) {
 static int hexval(int c) { return c <= '9' ? c - '0' : (c | 32) - 'a' + 10; }
 static size_t unhex(const char *s, unsigned char **out) {
     size_t n = 0;
+    if (s[0] == '-') { *out = malloc(1); return 0; }          /* "-" = the empty byte string */
     while (s[n] && s[n] != '\n' && s[n] != ' ') n++;
     n /= 2;
     unsigned char *p = malloc(n ? n : 1);
@@ -503,11 +504,11 @@ static void run_scenario(rec_t *r, char **lines, int nl, const char *name, int p
     r->nolive = (int) kv(kline, "nolive", 0);
     if (!kv(kline, "nolive", 0)) { vf_count = 0; vf_fail_at = kv(kline, "failat", -1); }     /* not touched when several parsers run at once (C19) */
     long live0 = kv(kline, "nolive", 0) ? 0 : vf_live;
-    fprintf(r->out, "{\"e\":\"Reset\",\"run\":\"%s\",\"p\":%d,\"cfg\":{\"autod\":%s,\"maxtx\":%ld,\"hard\":%ld,\"mode\":\"%s\",\"wf\":%s,\"ids\":%s,\"n\":%ld,\"pers\":%ld,\"failat\":%ld,\"pumpdir\":\"%s\",\"pumpstart\":%ld,\"role\":\"%s\",\"idx\":%ld,\"fam\":\"%s\",\"cls\":\"",
+    fprintf(r->out, "{\"e\":\"Reset\",\"run\":\"%s\",\"p\":%d,\"cfg\":{\"autod\":%s,\"maxtx\":%ld,\"hard\":%ld,\"mode\":\"%s\",\"wf\":%s,\"ids\":%s,\"n\":%ld,\"pers\":%ld,\"failat\":%ld,\"pumpdir\":\"%s\",\"pumpstart\":%ld,\"role\":\"%s\",\"idx\":%ld,\"fam\":\"%s\",\"bomb\":%ld,\"cls\":\"",
             name, pid, kv(kline, "autod", 0) ? "true" : "false", kv(kline, "maxtx", 0), kv(kline, "hard", 18000), mode,
             kv(kline, "wf", 0) ? "true" : "false", kv(kline, "ids", 0) ? "true" : "false", kv(kline, "n", -1), kv(kline, "pers", 9), vf_fail_at,
             kv(kline, "pumpdir", -1) == 0 ? "req" : kv(kline, "pumpdir", -1) == 1 ? "res" : "none", kv(kline, "pumpstart", 0),
-            kvs(kline, "role", rolebuf, sizeof rolebuf) ? rolebuf : "", kv(kline, "idx", 0), kvs(kline, "fam", fambuf, sizeof fambuf) ? fambuf : "");
+            kvs(kline, "role", rolebuf, sizeof rolebuf) ? rolebuf : "", kv(kline, "idx", 0), kvs(kline, "fam", fambuf, sizeof fambuf) ? fambuf : "", kv(kline, "bomb", 1048576));
     char cls[64] = ""; kvs(kline, "cls", cls, sizeof cls); fputs(cls, r->out); fputs("\"}}\n", r->out);
     fflush(r->out);       /* the Reset record survives a crash inside the scenario */
     int own_cfg = g_shared_cfg == NULL || kv(kline, "owncfg", 0);
